@@ -1,7 +1,8 @@
 (* Props/C04.v — Serializer round trip: serialize then parse gives the same tree; the serializer
    output is a fixed point.  Only statements here; proofs are in Syntax/SerializerProofs.v and, for the
    fragments, in Syntax/RoundTrip.v + SerializerRoundTrip.v (one-line patterns) and Syntax/RoundTripML.v +
-   EntryLoop.v + SerializerLoop.v + SerializerML.v (multi-line patterns).
+   EntryLoop.v + SerializerLoop.v + SerializerML.v (multi-line patterns) + RoundTripSel.v + SerializerSel.v (select
+   expressions and nested placeables).
 
    PROVED IN FULL, for ALL trees (not only parser outputs), about Syntax/SerializerModel.v:
      C04_serialize_total          serialize_with_options never panics / always returns
@@ -12,7 +13,23 @@
      C04_junk_verbatim, C04_junk_skipped     Junk is written byte for byte / not at all (the D6 repair)
      C04_comment_lines            the exact text serialize_comment writes
      C04_final_indent_zero        a run of the serializer ends at the indent level it started with
-   PROVED FOR THE FRAGMENT sml_resource (Syntax/SerializerML.v), both serializer options:
+   PROVED FOR THE FRAGMENTS ssel_resource d (Syntax/SerializerSel.v; d = nesting depth of placeables, any d), both
+   serializer options:
+     C04_roundtrip_select_partial, C04_fixpoint_select_partial, C04_select_output (the text:
+                                  SerializerSel.ssel_resource_text; a select expression is written as
+                                  "{ " selector " ->" LF, one line per variant indented one level deeper with
+                                  "*" in the last column of the indentation of the default variant, "[key]" and
+                                  the value, then the closing brace on a line of its own at the pattern's
+                                  indentation; a placeable around a placeable as "{{ " ... " }}"),
+     C04_select_contains_parser_outputs   for every tree tj of RoundTripSel.sel_resource d (C02's fragment of depth
+                                  d) and EVERY layout cs, the tree the parser returns for render cs tj is in
+                                  ssel_resource d
+     C04_multiline_in_select      sml_resource (below) is contained in ssel_resource 0
+   The fragment ssel_resource d: as sml_resource below, but the patterns join -- at every nesting level -- to a
+   pattern of RoundTripSel.sel_pattern d (placeables of depth d: simple inline expressions, placeables around
+   placeables, select expressions with string/number/variable selector whose variant values are such patterns of
+   depth d-1), and the text elements at every nesting level are non-empty with a line feed only as last byte.
+   PROVED FOR THE SUB-FRAGMENT sml_resource (Syntax/SerializerML.v; depth 0), both serializer options:
      C04_roundtrip_multiline_partial   the round trip: the serializer's text parses back, without errors, to a
                                   tree of the fragment with the same normal form (adjacent text elements joined,
                                   whitespace-only comment lines emptied)
@@ -59,7 +76,7 @@
 From FluentV Require Import Base.Bytes Base.Outcome Base.Utf8 Syntax.Ast.
 From FluentV Require Import Syntax.ParserModel Syntax.SerializerModel Syntax.SerializerProofs Syntax.TreeNorm.
 From FluentV Require Import Syntax.Render Syntax.RoundTrip Syntax.SerializerRoundTrip.
-From FluentV Require Import Syntax.EntryLoop Syntax.RoundTripML Syntax.RoundTripSel Syntax.SerializerML.
+From FluentV Require Import Syntax.EntryLoop Syntax.RoundTripML Syntax.RoundTripSel Syntax.SerializerML Syntax.SerializerSel.
 
 (* ---- "serialising ... yields" : the serializer returns for every tree ---- *)
 Theorem C04_serialize_total :
@@ -234,6 +251,42 @@ Proof.
     rewrite (IH Hr); reflexivity.
 Qed.
 
+(* ---- select expressions and nested placeables (SerializerSel.ssel_resource d, any depth d) ---- *)
+Theorem C04_roundtrip_select_partial :
+  forall d bs t errs, parse bs = Done (t, errs) -> ssel_resource d t = true ->
+  forall with_junk s, serialize_with_options with_junk t = Done s ->
+  exists t2 errs2, parse s = Done (t2, errs2) /\ norm t2 = norm (drop_junk_unless with_junk t) /\
+                   errs2 = [] /\ ssel_resource d t2 = true.
+Proof.
+  intros d bs t errs _ Ht wj s Hs.
+  destruct (parse_serialize_ssel d wj t Ht) as (t2 & Es & Ep & Hn & Ht2 & _).
+  rewrite Es in Hs. injection Hs as <-.
+  exists t2, []. rewrite (g_no_junk (ssel_pok d) t wj Ht). repeat split; assumption.
+Qed.
+
+Theorem C04_fixpoint_select_partial :
+  forall d bs t errs, parse bs = Done (t, errs) -> ssel_resource d t = true ->
+  forall with_junk s, serialize_with_options with_junk t = Done s ->
+  forall t2 errs2, parse s = Done (t2, errs2) -> serialize_with_options with_junk t2 = Done s.
+Proof.
+  intros d bs t errs _ Ht wj s Hs t2 errs2 Hp2.
+  destruct (parse_serialize_ssel d wj t Ht) as (t2' & Es & Ep & _ & _ & Efix).
+  rewrite Es in Hs. injection Hs as <-. rewrite Ep in Hp2. injection Hp2 as <- <-. exact Efix.
+Qed.
+
+Theorem C04_select_output :
+  forall d with_junk t, ssel_resource d t = true ->
+  serialize_with_options with_junk t = Done (ssel_resource_text d t).
+Proof. intros d wj t Ht. destruct (parse_serialize_ssel d wj t Ht) as (t2 & Es & _). exact Es. Qed.
+
+Theorem C04_select_contains_parser_outputs :
+  forall d cs tj, sel_resource d tj = true ->
+  exists t, parse (render cs tj) = Done (t, []) /\ ssel_resource d t = true /\ map join_entry t = tj.
+Proof. exact parser_outputs_ssel. Qed.
+
+Theorem C04_multiline_in_select : forall t, sml_resource t = true -> ssel_resource 0 t = true.
+Proof. exact sml_resource_ssel. Qed.
+
 (* ---- the multi-line fragment (SerializerML.sml_resource) ---- *)
 (* C04_roundtrip_statement with the extra premise that the parsed tree lies in the fragment; there are no
    errors, and the re-parsed tree is in the fragment again *)
@@ -361,6 +414,19 @@ Example C04_example_multiline_in_fragment :
             Done (b "# c" ++ LF ++ b "-t =" ++ LF ++ b "    first" ++ LF ++ b "      indented" ++ LF ++ b "    " ++ LF ++
                   b "    last { m.a }" ++ LF ++ b "       { ""A{"" } x" ++ LF ++
                   b "    .attr =" ++ LF ++ b "        { $v }" ++ LF ++ b "        second" ++ LF ++ b "         third" ++ LF).
+Proof. eexists. conj_compute. Qed.
+
+(* a source whose tree is in the fragment of depth 2: a select with a multi-line variant value, a nested select,
+   a placeable around a placeable; its serialization *)
+Example C04_example_select_in_fragment :
+  let src := b "m = You have { $n ->" ++ LF ++ b "   [one] one email" ++ LF ++ b "   [2] two" ++ LF ++ b "      lines" ++ LF ++
+             b "  *[other] {{$n}} emails { ""x"" ->" ++ LF ++ b "       *[-1.5] [a]" ++ LF ++ b "     }" ++ LF ++ b "  } now" ++ LF in
+  exists t, parse src = Done (t, []) /\ ssel_resource 2 t = true /\
+            serialize_with_options true t =
+            Done (b "m =" ++ LF ++ b "    You have { $n ->" ++ LF ++ b "        [one] one email" ++ LF ++ b "        [2]" ++ LF ++
+                  b "            two" ++ LF ++ b "            lines" ++ LF ++ b "       *[other]" ++ LF ++
+                  b "            {{ $n }} emails { ""x"" ->" ++ LF ++ b "               *[-1.5] [a]" ++ LF ++
+                  b "            }" ++ LF ++ b "    } now" ++ LF).
 Proof. eexists. conj_compute. Qed.
 
 (* a select expression with a default variant *)
